@@ -65,6 +65,54 @@ def same(a, b):
     return all(abs(a.get(k, 0.0) - b.get(k, 0.0)) <= 1e-12 for k in keys)
 
 
+def object_forms(ctx, lib, libname, parts, joint_smi, want, case):
+    """The same mixture handed over as ONE RDKit object.  False if a
+    violation was recorded."""
+    from rdkit import Chem
+    mols = [Chem.MolFromSmiles(p) for p in parts]
+    comb = mols[0]
+    for m_ in mols[1:]:
+        comb = Chem.CombineMols(comb, m_)
+    # (judged against the components given as objects too: whether a Mol
+    # and its SMILES decompose alike is C03's question, not this one's)
+    want_s = want
+    want = collections.Counter()
+    for m_ in mols:
+        so = observe(lib.GetDescriptors, Chem.Mol(m_))
+        if 'exc' in so:
+            ctx.skip('a component given as Mol object raises (C03)')
+            want = None
+            break
+        for k, v in dict(so['ok']).items():
+            want[str(k)] += float(v)
+    if want is None:
+        return True
+    if not same(want, want_s):
+        ctx.count('components_decompose_differently_as_mol_objects (C03)')
+    for lab, obj in (('Mol of the dotted SMILES',
+                      Chem.MolFromSmiles(joint_smi)),
+                     ('CombineMols of the components', comb)):
+        mo = observe(lib.GetDescriptors, obj)
+        ctx.evals()
+        if 'exc' in mo:
+            ctx.violation('mixture given as %s raises %s' % (lab, mo['exc']),
+                          case, {'msg': mo['msg']})
+            return False
+        g2 = {str(k): float(v) for k, v in dict(mo['ok']).items()}
+        if not same(g2, want):
+            ctx.violation('descriptors of the mixture (%s) != sum over '
+                          'components' % lab, case,
+                          {'differences': {k: [g2.get(k, 0.0),
+                                               want.get(k, 0.0)]
+                                           for k in list(set(g2) | set(want))
+                                           if abs(g2.get(k, 0.0) -
+                                                  want.get(k, 0.0)) > 1e-12
+                                           }})
+            return False
+    ctx.count('mixtures_as_mol_objects')
+    return True
+
+
 def check_tuple(ctx, libname, parts, estimates=False):
     lib = libs.get(libname)
     case = {'lib': libname, 'parts': list(parts)}
@@ -105,50 +153,11 @@ def check_tuple(ctx, libname, parts, estimates=False):
         ctx.violation('descriptors of the mixture != sum over components',
                       case, {'differences': dict(list(diff.items())[:8])})
         return
-    # the same mixture handed over as ONE RDKit object
-    from rdkit import Chem
-    mols = [Chem.MolFromSmiles(p) for p in parts]
-    comb = mols[0]
-    for m_ in mols[1:]:
-        comb = Chem.CombineMols(comb, m_)
-    # (judged against the components given as objects too: whether a Mol
-    # and its SMILES decompose alike is C03's question, not this one's)
-    want_s = want
-    want = collections.Counter()
-    for m_ in mols:
-        so = observe(lib.GetDescriptors, Chem.Mol(m_))
-        if 'exc' in so:
-            ctx.skip('a component given as Mol object raises (C03)')
-            want = None
-            break
-        for k, v in dict(so['ok']).items():
-            want[str(k)] += float(v)
-    if want is None:
-        ctx.nontrivial([libname] + list(parts))
-        return
-    if not same(want, want_s):
-        ctx.count('components_decompose_differently_as_mol_objects (C03)')
-    for lab, obj in (('Mol of the dotted SMILES',
-                      Chem.MolFromSmiles(joint_smi)),
-                     ('CombineMols of the components', comb)):
-        mo = observe(lib.GetDescriptors, obj)
-        ctx.evals()
-        if 'exc' in mo:
-            ctx.violation('mixture given as %s raises %s' % (lab, mo['exc']),
-                          case, {'msg': mo['msg']})
+    # the same mixture handed over as ONE RDKit object (thorough tier: for
+    # every third tuple, to keep the exhaustive pair grid affordable)
+    if not (ctx.tier == 'thorough' and sum(map(ord, joint_smi)) % 3):
+        if not object_forms(ctx, lib, libname, parts, joint_smi, want, case):
             return
-        g2 = {str(k): float(v) for k, v in dict(mo['ok']).items()}
-        if not same(g2, want):
-            ctx.violation('descriptors of the mixture (%s) != sum over '
-                          'components' % lab, case,
-                          {'differences': {k: [g2.get(k, 0.0),
-                                               want.get(k, 0.0)]
-                                           for k in list(set(g2) | set(want))
-                                           if abs(g2.get(k, 0.0) -
-                                                  want.get(k, 0.0)) > 1e-12
-                                           }})
-            return
-    ctx.count('mixtures_as_mol_objects')
     ctx.nontrivial([libname] + list(parts))
     ctx.klass('%d components' % len(parts))
     if not estimates:
